@@ -4,8 +4,11 @@ from ..facts import AnchorError, Origins, callee_name, method_name, mname, peel,
 
 
 def arg_field(node, argn=None):
-    """if node (after peeling) is `argN.field` return (N, field) else None"""
+    """if node (after peeling, also through Option::as_ref / as_deref / iter adaptors of the field) is `argN.field` return (N, field) else None"""
     n = peel(node)
+    while n.kind == "call" and method_name(n.a) in ("Option::as_ref", "Option::as_deref", "Option::as_mut", "Clone::clone", "IntoIterator::into_iter",
+                                                      "BTreeMap::iter", "HashMap::iter", "Iterator::next", "Vec::iter", "slice::iter") and n.kids:
+        n = peel(n.kids[0])
     if n.kind == "field" and n.kids:
         base = peel(n.kids[0])
         if base.kind == "arg" and (argn is None or base.a == argn):
@@ -69,6 +72,8 @@ def _merge_fields(ctx, f, label, self_arg=1, dflt_arg=2):
         where = stmt_loc(f, bb, si)
         key = label + ":" + fname
         verdict = None
+        while tree.kind == "call" and method_name(tree.a) in ("Option::cloned", "Option::copied") and tree.kids:
+            tree = peel(tree.kids[0])
         if tree.kind == "call":
             m = method_name(tree.a)
             if m == "Option::or":
@@ -112,7 +117,25 @@ def _merge_fields(ctx, f, label, self_arg=1, dflt_arg=2):
                 for cb_, t in mut_calls(f, pl["l"]):
                     if method_name(callee_name(t, resolved=False) or "") in ("Extend::extend", "Vec::extend", "Vec::append", "Vec::extend_from_slice"):
                         ext.append(arg_field(o.operand(t["args"][1])))
-            if base is not None and ext:
+            ins = []
+            if pl is not None and not pl["p"]:
+                for cb_, t in mut_calls(f, pl["l"]):
+                    if method_name(callee_name(t, resolved=False) or "") in ("BTreeMap::insert", "HashMap::insert"):
+                        srcs = set()
+                        for a_ in t["args"][1:]:
+                            for n_ in o.operand(a_).walk():
+                                af = arg_field(n_) if n_.kind in ("field", "call") else None
+                                if af:
+                                    srcs.add(af)
+                        ins.append(srcs)
+                    elif method_name(callee_name(t, resolved=False) or "") in ("Extend::extend",) and "Map" in f.lty(pl["l"]):
+                        ins.append({arg_field(o.operand(t["args"][1]))})
+            if base is not None and ins and not ext or (base is not None and ins and "Map" in f.lty(pl["l"])):
+                # map built from one layer, then entries of the other inserted: the inserted layer wins per key
+                verdict = (base == (dflt_arg, fname) and all(x == {(self_arg, fname)} for x in ins),
+                           "map `%s` starts as defaults.%s and receives self's entries by insert/extend: the receiver layer wins per key" % (fname, fname),
+                           "map `%s` starts as %s and receives entries from %s: on a key set in both layers the lower layer wins" % (fname, base, [sorted(x, key=str) for x in ins]))
+            elif base is not None and ext:
                 layers = {base[0]} | {e[0] for e in ext if e}
                 names = {base[1]} | {e[1] for e in ext if e}
                 verdict = (layers == {self_arg, dflt_arg} and names == {fname},
